@@ -33,7 +33,9 @@ SubCodec(ct) == CASE ct \in {"grpc", "grpc+proto", "web", "webtext"} -> "proto"
                   [] ct \in {"grpc+json", "web+json", "webtext+json"} -> "json"
                   [] OTHER -> "zz"
 Paths == {"rpc", "stream", "rule", "ws", "none"}   \* POST /pkg.Svc/Unary, POST /pkg.Svc/Bidi, GET rule, WEBSOCKET rule, unknown
-Requests == [h2 : BOOLEAN, ct : CTs, meth : {"POST", "GET"}, genc : {"", "gzip", "zz"}, to : {"", "ok", "bad"},
+\* grpc-timeout: absent, well formed, malformed, or well formed but already over when it arrives ("-1S": the decoder
+\* takes a sign, as grpc-go's does)
+Requests == [h2 : BOOLEAN, ct : CTs, meth : {"POST", "GET"}, genc : {"", "gzip", "zz"}, to : {"", "ok", "bad", "expired"},
              path : Paths, upg : BOOLEAN]
 
 VARIABLES rq, pc, resp, invoked, asWeb
@@ -83,22 +85,26 @@ GrpcTimeout ==
 GrpcRoute ==
   /\ pc = "grpc.route" /\ UNCHANGED <<rq, invoked, asWeb>>
   /\ IF rq.path \notin {"rpc", "stream"} THEN Answer(Plain(404)) ELSE Goto("grpc.call")
+\* a call whose deadline is already over may end without any status (grpc.go: "return // ctx canceled"): the client
+\* is gone or has reported DeadlineExceeded itself.  Class "expired": HTTP 200, nothing else promised.
 GrpcCall ==
   /\ pc = "grpc.call" /\ UNCHANGED <<rq, asWeb>>
   /\ invoked' = invoked + 1
-  /\ Answer([class |-> IF asWeb THEN "web" ELSE "grpc", status |-> 200])
+  /\ IF rq.to = "expired" THEN Answer([class |-> "expired", status |-> 200])
+     ELSE Answer([class |-> IF asWeb THEN "web" ELSE "grpc", status |-> 200])
 
 \* ---- http.go serveHTTP
 \* the verb a rule must be registered under: WEBSOCKET when upgrading (exact header value "websocket")
 Verb == IF rq.upg THEN "WEBSOCKET" ELSE rq.meth
-Routed == \/ rq.path \in {"rpc", "stream"} /\ Verb = "POST"
+\* (the implicit /pkg.Service/Method binding is registered for every verb, WEBSOCKET included)
+Routed == \/ rq.path \in {"rpc", "stream"}
           \/ rq.path = "rule" /\ Verb = "GET"
           \/ rq.path = "ws" /\ Verb = "WEBSOCKET"
 HttpErr(st) == [class |-> "httperr", status |-> st]       \* a google.rpc.Status body in a registered codec
 HttpMatch ==
   /\ pc = "http.match" /\ UNCHANGED <<rq, invoked, asWeb>>
   /\ IF ~Routed THEN Answer(HttpErr(404))
-     ELSE IF rq.path = "ws" THEN Goto("http.upgrade") ELSE Goto("http.call")
+     ELSE IF rq.upg THEN Goto("http.upgrade") ELSE Goto("http.call")
 \* the WebSocket upgrade needs a hijackable connection; what happens on it is WsSession.tla's business
 HttpUpgrade ==
   /\ pc = "http.upgrade" /\ UNCHANGED <<rq, invoked, asWeb>>
@@ -117,17 +123,40 @@ Next == Dispatch \/ WebCheck \/ GrpcMethod \/ GrpcCodec \/ GrpcEnc \/ GrpcTimeou
 Spec == Init /\ [][Next]_evars /\ WF_evars(Next)
 
 -----------------------------------------------------------------------------
+(* The same decision as a function of the request (used by RobustTrace.tla); FunctionAgrees ties it to the machine. *)
+GrpcGuards(r, web) ==
+  IF ~TypOK(r.ct) \/ SubCodec(r.ct) = "zz" \/ (IsWebCT(r.ct) /\ ~web) THEN Plain(415)
+  ELSE IF r.genc = "zz" THEN Plain(415)
+  ELSE IF r.to = "bad" THEN Plain(400)
+  ELSE IF r.path \notin {"rpc", "stream"} THEN Plain(404)
+  ELSE IF r.to = "expired" THEN [class |-> "expired", status |-> 200]
+  ELSE [class |-> IF web THEN "web" ELSE "grpc", status |-> 200]
+WebResp(r) == IF r.meth # "POST" \/ ~TypOK(r.ct) THEN Plain(400) ELSE IF r.upg THEN Plain(500) ELSE GrpcGuards(r, TRUE)
+GrpcResp(r) == IF r.meth # "POST" THEN Plain(400) ELSE GrpcGuards(r, FALSE)
+HttpResp(r) ==
+  LET verb == IF r.upg THEN "WEBSOCKET" ELSE r.meth
+      routed == r.path \in {"rpc", "stream"} \/ (r.path = "rule" /\ verb = "GET") \/ (r.path = "ws" /\ verb = "WEBSOCKET") IN
+  IF ~routed THEN HttpErr(404)
+  ELSE IF r.upg THEN [class |-> "upgrade", status |-> 0]
+  ELSE IF r.ct \in {"json", "proto", "none"} THEN [class |-> "http", status |-> 200]
+  ELSE [class |-> "httperr", status |-> 0]
+Resp(r) ==
+  LET web == IsWebCT(r.ct)  grpc == r.h2 /\ IsGrpcCT(r.ct) IN
+  IF WebFirst THEN (IF web THEN WebResp(r) ELSE IF grpc THEN GrpcResp(r) ELSE HttpResp(r))
+  ELSE (IF grpc THEN GrpcResp(r) ELSE IF web THEN WebResp(r) ELSE HttpResp(r))
+FunctionAgrees == pc = "done" => resp = Resp(rq)
+
 TypeOK == /\ rq \in Requests /\ invoked \in 0..1
-          /\ resp.class \in {"none", "plain", "grpc", "web", "http", "httperr", "upgrade"}
+          /\ resp.class \in {"none", "plain", "grpc", "web", "http", "httperr", "upgrade", "expired"}
 \* C09: every request is answered (no stuck state; liveness under weak fairness)
 Answered == <>(pc = "done")
 AnsweredOnce == (pc = "done") <=> (resp # NoResp)
 \* a handler only runs for requests that passed every guard of their entry
-HandlerGuarded == invoked = 1 => resp.class \in {"grpc", "web", "http", "httperr"}
+HandlerGuarded == invoked = 1 => resp.class \in {"grpc", "web", "http", "httperr", "expired"}
 \* gRPC proper needs HTTP/2
 GrpcNeedsH2 == resp.class = "grpc" => rq.h2
 \* a well-formed gRPC-web request is served as gRPC-web whatever the HTTP version
 WebWellFormed == /\ rq.ct \in {"web", "web+json", "webtext", "webtext+json"} /\ rq.meth = "POST" /\ ~rq.upg
-                 /\ rq.genc # "zz" /\ rq.to # "bad" /\ rq.path \in {"rpc", "stream"}
+                 /\ rq.genc # "zz" /\ rq.to \in {"", "ok"} /\ rq.path \in {"rpc", "stream"}
 WebServed == (pc = "done" /\ WebWellFormed) => resp.class = "web"
 =============================================================================
